@@ -259,7 +259,7 @@ def units(tier, seed):
 def unit_cost(u, tier):
     space, which, L, pre = u
     if space == "shapes":
-        base = 27 if which == "full" else len(CORE_IDX)
+        base = len(shapes(0)) if which == "full" else len(CORE_IDX)
         return 3 * L * base ** (L - len(pre))
     return L * 6 ** (L - len(pre)) / 3.0
 
